@@ -1,4 +1,5 @@
 mod detect;
+mod enc_replay;
 mod errtext;
 mod input_replay;
 mod mem;
@@ -23,6 +24,8 @@ fn main() {
         "record-obs" => scen::record(&arg(2), &arg(3), num(4, 50)),
         "transcode-replay" => transcode_replay::run(&arg(2)),
         "record-errtext" => errtext::record(&arg(2), num(3, 40)),
+        "enc-replay" => enc_replay::run(&arg(2), num(3, 2)),
+        "enc-sweep" => enc_replay::sweep(num(2, 97) as u32),
         "record-detect" => detect::record(&arg(2), num(3, 50)),
         "record-mem" => {
             let sizes: Vec<usize> = arg(4).split(',').filter_map(|s| s.parse().ok()).collect();
